@@ -268,16 +268,10 @@ func runProfile(x cue.Value, orig *CNode, pr profile, suspect bool) caseOut {
 		}
 	}
 	if _, perr := parser.ParseExpr("printed", text); perr != nil {
-		// known finding F3: `< -1` is written `<-1`, which lexes as the arrow token.  The class is
-		// recognised exactly: the text with a blank inserted after every `<` that precedes `-`
-		// must pass everything below.
-		fixed := strings.ReplaceAll(text, "<-", "< -")
-		if _, perr2 := parser.ParseExpr("printed", fixed); perr2 != nil || fixed == text {
-			co.verdict = "PARSE"
-			return co
-		}
-		co.flags = append(co.flags, "f3")
-		text = fixed
+		// (finding F3 - `< -1` written `<-1` - is fixed: fix: cue/format, internal/pretty: keep a
+		// blank between a `<` bound and a signed operand; a text that does not parse is a violation)
+		co.verdict = "PARSE"
+		return co
 	}
 	re, st := evalTree("x: "+text+"\n", "("+text+")")
 	if re == nil {
